@@ -12,6 +12,14 @@
 //   - the knob seam: a `const ( chunkSize = ...; maxBlockSize = ... )`
 //     declaration inside a function becomes a `var` read from simrt.Knob with
 //     the original expression as default.
+//   - the environment seam (every mode): calls of time.Now / time.Since /
+//     time.Until / time.Sleep, runtime.NumCPU / runtime.GOMAXPROCS and the
+//     top-level functions of math/rand (and math/rand/v2) are redirected to
+//     simrt, where the SCENARIO decides the wall clock (start, rate per yield
+//     step, jumps), the number of CPUs the library believes it has, and the
+//     pseudo-random stream.  None on today's tree; a change that adds a cache
+//     with a time-to-live, a path gated on the CPU count or random sampling
+//     is then still a pure function of the scenario.
 //
 // Usage: instr -mode knob|steps|dense -sites out.json dir...
 package main
@@ -47,6 +55,8 @@ var (
 	knobNames = map[string]bool{"chunkSize": true, "maxBlockSize": true}
 
 	sites     []site
+	envSites  = map[string]int{} // redirected environment calls, by "pkg.Func"
+	envLeft   = map[string]int{} // environment calls left alone (timers, tickers, rand.New, ...)
 	goStmts   int
 	knobFound []string
 	nextID    = 1
@@ -76,11 +86,13 @@ func main() {
 	}
 	if *sitesOut != "" {
 		out := struct {
-			Mode  string   `json:"mode"`
-			Knobs []string `json:"knobs"`
-			Sites []site   `json:"sites"`
-			GoStm int      `json:"go_statements"`
-		}{*mode, knobFound, sites, goStmts}
+			Mode  string         `json:"mode"`
+			Knobs []string       `json:"knobs"`
+			Sites []site         `json:"sites"`
+			GoStm int            `json:"go_statements"`
+			Env   map[string]int `json:"env_redirected"`
+			EnvNo map[string]int `json:"env_not_simulated"`
+		}{*mode, knobFound, sites, goStmts, envSites, envLeft}
 		b, _ := json.Marshal(out)
 		if err := os.WriteFile(*sitesOut, b, 0o644); err != nil {
 			fatal(err)
@@ -146,6 +158,9 @@ func rewriteFile(path, rel string) error {
 			return true
 		})
 	}
+	if rw.envSeam(f) {
+		rw.changed = true
+	}
 	if !rw.changed {
 		return nil
 	}
@@ -155,6 +170,88 @@ func rewriteFile(path, rel string) error {
 		return err
 	}
 	return os.WriteFile(path, buf.Bytes(), 0o644)
+}
+
+// envFuncs: package path -> function -> simrt replacement ("" = counted as not simulated).
+var envFuncs = map[string]map[string]string{
+	"time": {"Now": "Now", "Since": "Since", "Until": "Until", "Sleep": "Sleep",
+		"After": "", "AfterFunc": "", "NewTimer": "", "NewTicker": "", "Tick": ""},
+	"runtime": {"NumCPU": "NumCPU", "GOMAXPROCS": "GOMAXPROCS"},
+	"math/rand": {"Int": "RandInt", "Intn": "RandIntn", "Int31": "RandInt31", "Int31n": "RandInt31n", "Int63": "RandInt63", "Int63n": "RandInt63n",
+		"Uint32": "RandUint32", "Uint64": "RandUint64", "Float64": "RandFloat64", "Float32": "RandFloat32",
+		"Perm": "", "Shuffle": "", "New": "", "NewSource": "", "Seed": "", "Read": ""},
+	"math/rand/v2": {"Int": "RandInt", "IntN": "RandIntn", "Int32": "RandInt31", "Int32N": "RandInt31n", "Int64": "RandInt63", "Int64N": "RandInt63n",
+		"Uint32": "RandUint32", "Uint64": "RandUint64", "Float64": "RandFloat64", "Float32": "RandFloat32", "UintN": "RandUintn", "Uint64N": "RandUint64n",
+		"Perm": "", "Shuffle": "", "New": "", "N": ""},
+}
+
+// envSeam redirects environment calls to simrt (see the package comment).
+func (rw *rewriter) envSeam(f *ast.File) bool {
+	local := map[string]string{} // local package name -> import path
+	for _, imp := range f.Imports {
+		path, _ := strconv.Unquote(imp.Path.Value)
+		if envFuncs[path] == nil {
+			continue
+		}
+		name := path[strings.LastIndex(path, "/")+1:]
+		if path == "math/rand/v2" {
+			name = "rand"
+		}
+		if imp.Name != nil {
+			name = imp.Name.Name
+		}
+		if name == "_" || name == "." {
+			continue
+		}
+		local[name] = path
+	}
+	if len(local) == 0 {
+		return false
+	}
+	used := map[string]bool{}
+	changed := false
+	ast.Inspect(f, func(n ast.Node) bool {
+		sel, ok := n.(*ast.SelectorExpr)
+		if !ok {
+			return true
+		}
+		id, ok := sel.X.(*ast.Ident)
+		if !ok || id.Obj != nil {
+			return true
+		}
+		path, ok := local[id.Name]
+		if !ok {
+			return true
+		}
+		repl, known := envFuncs[path][sel.Sel.Name]
+		switch {
+		case known && repl != "":
+			envSites[path+"."+sel.Sel.Name]++
+			sel.X = ast.NewIdent("simrt")
+			sel.Sel = ast.NewIdent(repl)
+			changed = true
+			return false
+		case known:
+			envLeft[path+"."+sel.Sel.Name]++
+		}
+		used[id.Name] = true
+		return true
+	})
+	if !changed {
+		return false
+	}
+	// an import all of whose uses were redirected would no longer compile
+	for name, path := range local {
+		if used[name] {
+			continue
+		}
+		for _, imp := range f.Imports {
+			if p, _ := strconv.Unquote(imp.Path.Value); p == path {
+				imp.Name = ast.NewIdent("_")
+			}
+		}
+	}
+	return true
 }
 
 func recvName(e ast.Expr) string {
